@@ -382,7 +382,7 @@ class CFG:
         starts: Iterable[int],
         skip_edge: Optional[Callable[[Node, Optional[str], Node], bool]] = None,
         skip_node: Optional[Callable[[Node], bool]] = None,
-        include_start=True,
+        include_start=False,
     ) -> Dict[int, Optional[Tuple[int, Optional[str]]]]:
         """BFS.  Returns {reached node id: (pred id, label)} (None for starts)."""
         seen: Dict[int, Optional[Tuple[int, Optional[str]]]] = {}
